@@ -1183,6 +1183,14 @@ func checkCertMatch(r *Report, sc *Scope, rule string) {
 							}
 						}
 					}
+					// ... through a local helper that is handed the path (find := func(path string) *etree.Element {...})
+					if scf := c.Call.StaticCallee(); scf != nil && scf.Parent() == fn && localHelperClosure(scf) {
+						for _, a := range c.Call.Args {
+							if path, ok := etreePathConst(a); ok && strings.HasSuffix(path, "X509Certificate") && len(callsTo(scf, "(*github.com/beevik/etree.Element).FindElement")) > 0 {
+								return true
+							}
+						}
+					}
 				}
 			}
 		}
@@ -1224,7 +1232,7 @@ func checkCertMatch(r *Report, sc *Scope, rule string) {
 		for _, name := range sortedKeys(a.Atoms) {
 			ai := a.Atoms[name]
 			switch {
-			case ai.Kind == "isnil" && strings.Contains(name, "FindElement") && certPresent == "" && atomLookupsCertificate(ai):
+			case ai.Kind == "isnil" && (strings.Contains(name, "FindElement") || atomCallsLocalFinder(ai)) && certPresent == "" && atomLookupsCertificate(ai):
 				certPresent = name
 			case ai.Kind == "isnil" && strings.Contains(name, "pem.Decode"):
 				pemNil = name
@@ -1286,6 +1294,10 @@ func atomLooksUp(ai *AtomInfo, suffix string) bool {
 		if c, ok := v.(*ssa.Call); ok {
 			for _, a := range c.Call.Args {
 				if path, ok := etreePathConst(a); ok && strings.HasSuffix(path, suffix) {
+					return true
+				}
+				// the path is (built from) a parameter of a helper analysed as part of its caller: the argument bound to it
+				if path, ok := boundPathText(ai.Ctx, a, 0); ok && strings.HasSuffix(path, suffix) {
 					return true
 				}
 			}
@@ -1696,4 +1708,48 @@ func phiLeaves(v ssa.Value, depth int) []ssa.Value {
 		out = append(out, phiLeaves(Resolve(e), depth+1)...)
 	}
 	return out
+}
+
+// atomCallsLocalFinder: the atom is about the result of a local helper literal that looks an element up by the path it
+// is handed (find := func(path string) *etree.Element { return el.FindElement(path) }).
+func atomCallsLocalFinder(ai *AtomInfo) bool {
+	if ai == nil {
+		return false
+	}
+	for _, v := range ai.Vals {
+		if c, ok := v.(*ssa.Call); ok {
+			if sc := c.Call.StaticCallee(); sc != nil && sc.Parent() != nil && localHelperClosure(sc) && len(callsTo(sc, "(*github.com/beevik/etree.Element).FindElement")) > 0 {
+				return true
+			}
+		}
+	}
+	return false
+}
+
+// boundPathText: the text of a path expression inside a helper analysed as part of its caller: a constant, a parameter
+// whose argument is such a text, or the concatenation of two such texts.
+func boundPathText(fc *FuncCtx, v ssa.Value, depth int) (string, bool) {
+	if depth > 4 {
+		return "", false
+	}
+	if path, ok := etreePathConst(v); ok {
+		return path, true
+	}
+	switch x := v.(type) {
+	case *ssa.Parameter:
+		if fc != nil && fc.argVal != nil && fc.parent != nil {
+			if av := fc.argVal[x]; av != nil {
+				return boundPathText(fc.parent, av, depth+1)
+			}
+		}
+	case *ssa.BinOp:
+		if x.Op == token.ADD {
+			l, ok1 := boundPathText(fc, x.X, depth+1)
+			r, ok2 := boundPathText(fc, x.Y, depth+1)
+			if ok1 && ok2 {
+				return l + r, true
+			}
+		}
+	}
+	return "", false
 }
